@@ -734,4 +734,196 @@ theorem sgInv_reachable (n waiters : Nat) (script : List Step) (s : SgS)
     (h : sgM.Reachable (sgInit n waiters script) s) : SgInv s :=
   Machine.inv_reachable sgM SgInv _ (by simp [SgInv, sgInit]) (fun s a s' hP hs => sgInv_step s a s' hP hs) s h
 
+/-! ## extra invariants behind the outcome predicates -/
+
+/-- limitExec: the cached output is never a panic, and the panicking returns are counted by `retPanic` -/
+def LimInv2 (s : LimS) : Prop :=
+  isPanicB s.output = false ∧
+  (match s.holder with
+   | some (.assigning _ r) => isPanicB r = false
+   | some (.storing _ r) => isPanicB r = false
+   | _ => True) ∧
+  (s.rets.filter (fun r => isPanicB r.res)).length = s.retPanic
+
+theorem limInv2_step (s : LimS) (a : LimA) (s' : LimS) (h : LimInv2 s) (hs : limStep s a = some s') : LimInv2 s' := by
+  obtain ⟨h1, h2, h3⟩ := h
+  cases a with
+  | fast =>
+    simp only [limStep] at hs
+    split at hs
+    · cases hs
+    · split at hs <;> (cases hs; exact ⟨h1, h2, h3⟩)
+  | readFast =>
+    simp only [limStep] at hs
+    split at hs
+    · cases hs
+    · cases hs; exact ⟨h1, h2, by simp [List.filter_cons, h1, h3]⟩
+  | lock =>
+    simp only [limStep] at hs
+    split at hs
+    · cases hs
+    · cases hh : s.holder with
+      | none => simp only [hh, Option.some.injEq] at hs; subst hs; exact ⟨h1, trivial, h3⟩
+      | some pc => simp [hh] at hs
+  | load =>
+    cases hh : s.holder with
+    | none => simp [limStep, hh] at hs
+    | some pc =>
+      cases pc with
+      | locked =>
+        simp only [limStep, hh] at hs
+        split at hs <;> (cases hs; exact ⟨h1, trivial, h3⟩)
+      | _ => simp [limStep, hh] at hs
+  | fnEnd =>
+    cases hh : s.holder with
+    | none => simp [limStep, hh] at hs
+    | some pc =>
+      cases pc with
+      | inFn num =>
+        rcases hp : popStep s.script with ⟨st, rest⟩
+        cases hr : s.k.proj st.res with
+        | panic p => simp only [limStep, hh, hp, hr, Option.some.injEq] at hs; subst hs; exact ⟨h1, trivial, h3⟩
+        | ret v e =>
+          simp only [limStep, hh, hp, hr, Option.some.injEq] at hs; subst hs
+          exact ⟨h1, by simp [isPanicB], h3⟩
+      | _ => simp [limStep, hh] at hs
+  | assign =>
+    cases hh : s.holder with
+    | none => simp [limStep, hh] at hs
+    | some pc =>
+      cases pc with
+      | assigning num r =>
+        simp only [hh] at h2
+        simp only [limStep, hh, Option.some.injEq] at hs; subst hs
+        exact ⟨h2, h2, h3⟩
+      | _ => simp [limStep, hh] at hs
+  | store =>
+    cases hh : s.holder with
+    | none => simp [limStep, hh] at hs
+    | some pc =>
+      cases pc with
+      | storing num r =>
+        simp only [limStep, hh, Option.some.injEq] at hs; subst hs
+        exact ⟨h1, trivial, h3⟩
+      | _ => simp [limStep, hh] at hs
+  | unlock =>
+    cases hh : s.holder with
+    | none => simp [limStep, hh] at hs
+    | some pc =>
+      cases pc with
+      | leaving own =>
+        cases own with
+        | some r =>
+          simp only [limStep, hh, Option.some.injEq] at hs; subst hs
+          exact ⟨h1, trivial, by simp [List.filter_cons, h1, h3]⟩
+        | none =>
+          simp only [limStep, hh, Option.some.injEq] at hs; subst hs
+          exact ⟨h1, trivial, by simp [List.filter_cons, h1, h3]⟩
+      | panicLeaving p =>
+        simp only [limStep, hh, Option.some.injEq] at hs; subst hs
+        exact ⟨h1, trivial, by
+          have : isPanicB (Res.panic p) = true := rfl
+          simp only [List.filter_cons, this, if_true, List.length_cons, h3]⟩
+      | _ => simp [limStep, hh] at hs
+
+theorem limInv2_reachable (k : Kind) (n callers : Nat) (script : List Step) (s : LimS)
+    (h : limM.Reachable (limInit k n callers script) s) : LimInv2 s :=
+  Machine.inv_reachable limM LimInv2 _ (by simp [LimInv2, limInit, isPanicB, Res.zero])
+    (fun s a s' hP hs => limInv2_step s a s' hP hs) s h
+
+/-- Signal/Launch: while the background function has not returned no waiter has returned -/
+def BgInv2 (s : BgS) : Prop := s.dropsWait = false ∧ (s.fnFinished = false → s.rets = [])
+
+theorem bgInv2_step (s : BgS) (a : BgA) (s' : BgS) (h : BgInv2 s) (hs : bgStep s a = some s') : BgInv2 s' := by
+  obtain ⟨hd, h1⟩ := h
+  cases a with
+  | begin =>
+    by_cases hb : s.bg = .spawned
+    · simp only [bgStep, hb, if_true, Option.some.injEq] at hs; subst hs
+      exact ⟨hd, fun _ => h1 (by simp [BgS.fnFinished, hb])⟩
+    · simp [bgStep, hb] at hs
+  | fnEnd =>
+    by_cases hb : s.bg = .inFn
+    · rcases hp : popStep s.script with ⟨st, rest⟩
+      cases hr : st.res with
+      | panic p => simp [bgStep, hb, hp, hr] at hs
+      | ret v e =>
+        simp only [bgStep, hb, if_true, hp, hr, Option.some.injEq] at hs; subst hs
+        exact ⟨hd, fun hf => by simp [BgS.fnFinished] at hf⟩
+    · simp [bgStep, hb] at hs
+  | send =>
+    cases hb : s.bg with
+    | fnDone e =>
+      by_cases hw : s.worker = true ∧ s.waiting > 0
+      · simp only [bgStep, hb, hw, and_self, if_true, Option.some.injEq] at hs; subst hs
+        exact ⟨hd, fun hf => by simp [BgS.fnFinished] at hf⟩
+      · simp [bgStep, hb, hw] at hs
+    | _ => simp [bgStep, hb] at hs
+  | close =>
+    cases hb : s.bg with
+    | fnDone e =>
+      by_cases hw : s.worker = true
+      · simp [bgStep, hb, hw] at hs
+      · simp [bgStep, hb, hw] at hs; subst hs
+        exact ⟨hd, fun hf => by simp [BgS.fnFinished] at hf⟩
+    | sent =>
+      simp only [bgStep, hb, Option.some.injEq] at hs; subst hs
+      exact ⟨hd, fun hf => by simp [BgS.fnFinished] at hf⟩
+    | _ => simp [bgStep, hb] at hs
+  | waitRet =>
+    by_cases hw : s.waiting = 0
+    · simp [bgStep, hw] at hs
+    · by_cases hc : s.bg = .closed
+      · simp only [bgStep, hw, if_false, hc, true_or, if_true, Option.some.injEq] at hs; subst hs
+        exact ⟨hd, fun hf => by simp [BgS.fnFinished, hc] at hf⟩
+      · simp [bgStep, hw, hc, hd] at hs
+
+theorem bgInv2_reachable (worker : Bool) (waiters : Nat) (script : List Step) (s : BgS)
+    (h : bgM.Reachable (bgInit worker false waiters script) s) : BgInv2 s :=
+  Machine.inv_reachable bgM BgInv2 _ (by simp [BgInv2, bgInit])
+    (fun s a s' hP hs => bgInv2_step s a s' hP hs) s h
+
+/-- StartGroup: a waiter has returned only if all n executions have finished (and that stays so) -/
+def SgInv2 (s : SgS) : Prop :=
+  s.counter = s.spawned + s.inFn + s.fnDone ∧ s.finished + s.spawned + s.inFn = s.n ∧ (s.rets ≠ [] → s.finished = s.n)
+
+theorem sgInv2_step (s : SgS) (a : SgA) (s' : SgS) (h : SgInv2 s) (hs : sgStep s a = some s') : SgInv2 s' := by
+  obtain ⟨h1, h2, h3⟩ := h
+  cases a with
+  | begin =>
+    by_cases hz : s.spawned = 0
+    · simp [sgStep, hz] at hs
+    · simp only [sgStep, hz, if_false, Option.some.injEq] at hs; subst hs
+      refine ⟨by simp only []; omega, by simp only []; omega, fun hne => ?_⟩
+      have := h3 hne; omega
+  | fnEnd =>
+    by_cases hz : s.inFn = 0
+    · simp [sgStep, hz] at hs
+    · rcases hp : popStep s.script with ⟨st, rest⟩
+      cases hr : st.res with
+      | panic p => simp [sgStep, hz, hp, hr] at hs
+      | ret v e =>
+        simp only [sgStep, hz, if_false, hp, hr, Option.some.injEq] at hs; subst hs
+        refine ⟨by simp only []; omega, by simp only []; omega, fun hne => ?_⟩
+        have := h3 hne; omega
+  | done =>
+    by_cases hz : s.fnDone = 0 ∨ s.counter = 0
+    · simp [sgStep, hz] at hs
+    · simp only [sgStep, hz, if_false, Option.some.injEq] at hs; subst hs
+      exact ⟨by simp only []; omega, h2, h3⟩
+  | waitRet =>
+    by_cases hz : s.waiting = 0 ∨ s.counter ≠ 0
+    · simp [sgStep, hz] at hs
+    · simp only [sgStep, hz, if_false, Option.some.injEq] at hs; subst hs
+      exact ⟨h1, h2, fun _ => by simp only []; omega⟩
+
+theorem sgInv2_reachable (n waiters : Nat) (script : List Step) (s : SgS)
+    (h : sgM.Reachable (sgInit n waiters script) s) : SgInv2 s ∧ s.n = n := by
+  refine Machine.inv_reachable sgM (fun s => SgInv2 s ∧ s.n = n) _ ⟨by simp [SgInv2, sgInit], rfl⟩ ?_ s h
+  intro s a s' ⟨hP, hn⟩ hs
+  refine ⟨sgInv2_step s a s' hP hs, ?_⟩
+  have hs' : sgStep s a = some s' := hs
+  cases a <;> simp only [sgStep] at hs' <;> (repeat' split at hs') <;>
+    first | (cases hs'; exact hn) | (simp at hs')
+
 end FunModel.WrapConc
